@@ -165,9 +165,6 @@ def run(ctx):
         inst = ctx.instance(name, "ReplImpl", "ReplImpl_mc.cfg", cons)
         ctx.model_check(inst, workers=2, timeout=1500, expect_violation=expect, label=name)
 
-    with ThreadPoolExecutor(max_workers=4) as pool:
-        list(pool.map(mc, runs))
-
     # 2. behaviours: TLC witnesses (one shortest history per implementation state and incoming operation), no
     #    transient failures (the kit cannot inject them), + seeded random executions over the full token universe
     rng = random.Random(ctx.seed)
@@ -175,18 +172,22 @@ def run(ctx):
     g2 = ctx.instance("G2_C40_n2", "ReplImpl", GEN_W, base_consts(MaxOps=4 if th else 3, WithTransient=False, WithRace=True,
                                                                   Datas={"e", "a", "b"},
                                                                   MetaSet={"m0", "m1", "m2"} if th else {"m0", "m1"}))
-    h2 = ctx.generate(g2, workers=4, timeout=1200)
     g3 = ctx.instance("G2_C40_n3", "ReplImpl", GEN_W, base_consts(N=3, MaxOps=3, WithTransient=False, Datas={"a", "e"},
                                                                   MetaSet={"m0", "m1"} if th else {"m1"}))
-    h3 = ctx.generate(g3, workers=4, timeout=1200)
-    h2 = rng.sample(h2, min(len(h2), 2500 if th else 120))
-    h3 = rng.sample(h3, min(len(h3), 1500 if th else 80))
+    # model checking and generation run side by side (each TLC with 2 workers)
+    with ThreadPoolExecutor(max_workers=4) as pool:
+        f2 = pool.submit(ctx.generate, g2, workers=2, timeout=1200)
+        f3 = pool.submit(ctx.generate, g3, workers=2, timeout=1200)
+        list(pool.map(mc, runs))
+        h2, h3 = f2.result(), f3.result()
+    h2 = rng.sample(h2, min(len(h2), 1500 if th else 120))
+    h3 = rng.sample(h3, min(len(h3), 1000 if th else 80))
     for h in h2:
         scripts.append((2, rng.choice(REPL[2]), "", from_model(h)))
     for h in h3:
         scripts.append((3, rng.choice(REPL[3]), "", from_model(h)))
-    scripts += random_hists(rng, 1500 if th else 120, 12)
-    ctx.notes["generated"] = {"witness_n2": len(h2), "witness_n3": len(h3), "random": 1500 if th else 120}
+    scripts += random_hists(rng, 1000 if th else 120, 12)
+    ctx.notes["generated"] = {"witness_n2": len(h2), "witness_n3": len(h3), "random": 1000 if th else 120}
 
     script = os.path.join(ctx.out, "script.ndjson")
     if ctx.replay:
@@ -198,8 +199,9 @@ def run(ctx):
                 for op in ops:
                     f.write(json.dumps(op) + "\n")
     binp = ctx.build("c40")
-    trace = ctx.drive(binp, ["--script", script])
-    ctx.judge("ReplWriteTrace", trace, "trace_base.cfg", {}, nontrivial=nontrivial, mutate=mutate)
+    trace = ctx.drive(binp, ["--script", script], timeout=2400)
+    ctx.judge("ReplWriteTrace", trace, "trace_base.cfg", {}, nontrivial=nontrivial, mutate=mutate,
+              chunk_events=9000 if th else 1200)
     ctx.rule = ("executions = TLC-generated witness histories of ReplImpl (one per (copies, read-only flags, location cache, "
                 "mounted/deleted copies, last op) for 2 and 3 copies: uploads and deletes through any copy as the primary, "
                 "mark read-only/writable, unmount, mount, delete a copy) + seeded random executions of length 12 over 10 "
